@@ -295,8 +295,12 @@ def gen_definition(rng, tzid, allow_inconsistent=False):
         obs, m = _family_pair(rng, names)
         meta.update(m)
     elif shape == "open":
-        obs, m = _dst_pair(rng, std, delta, rng.randint(1971, 2005), None, names, False)
+        # Exchange / Outlook write their rules from the year 1601 on
+        y0 = 1601 if rng.random() < 0.2 else rng.randint(1971, 2005)
+        obs, m = _dst_pair(rng, std, delta, y0, None, names, False)
         meta.update(m)
+        if y0 == 1601:
+            meta["rules_from_1601"] = True
     elif shape == "base+open":
         pair, m = _dst_pair(rng, std, delta, rng.randint(1975, 2010), None, names, False)
         obs = [base] + pair
